@@ -273,6 +273,8 @@ def families(tier):
     for n in (2, 3):
         fams.append(('arc-bezier-pairing-%d' % n, 'vf.props.c11', 'fam_arc_bezier_pairing', {'nroots': n}))
     fams.append(('line-point_to_t', 'vf.props.c11arc', 'fam_line_point_to_t', {}))
+    for sg in (1, -1):
+        fams.append(('arc-phase2t-%s' % ('ccw' if sg > 0 else 'cw'), 'vf.props.c11arc', 'fam_phase2t', {'sign': sg}))
     # Arc.point_to_t answers None only for points of the ellipse that are not on the arc (vf/props/c11arc.py)
     for nm, rad in (('2x1', (2.0, 1.0)), ('circle', (2.0, 2.0))):
         for sg in (1, -1):
